@@ -1,6 +1,6 @@
 (* C03 -- the logarithm of fix 84bd1d7 (atan2 angle, symmetric-part half-turn axis) and the closed-form 2-D logarithm of
    fix c4462a7: theorems over R about the hand model of theories/Model/C03_ExpLog.v (fixed; compiled at setup). *)
-From Coq Require Import Reals ZArith Lra Nsatz Psatz.
+From Coq Require Import Reals ZArith Lra Nsatz Psatz List.
 From SM Require Import Base.Ops Base.Lin Base.RInst Base.RLin Model.C03_ExpLog Model.C03_Lemmas Model.C05_Trig.
 Open Scope R_scope.
 
@@ -662,4 +662,56 @@ Proof.
       + symmetry. apply Rleb_true. rewrite !thv_R in *.
         assert (IZR (k_unit K) * eps Rops <= IZR (k_zero K) * eps Rops) by (apply Rmult_le_compat_r; lra). lra. }
   exists Rm. split; [exact E | exact (trexp_so3_in_SO3 K w Rm HK E)].
+Qed.
+
+
+(* ---------------- Twist3.exp with a vector theta on one twist ---------------- *)
+(* unit rotational twist: element t is the unit-twist exponential at t = trexp(S, t) *)
+Theorem twist3_exp_elem_unit K v0 v1 v2 w0 w1 w2 t :
+  thr_ok K -> normsq3 Rops (w0,w1,w2) = 1 -> thv Rops (k_zero K) <= t ->
+  twist3_exp_elem Rops K (v0,v1,v2,w0,w1,w2) t = Ok (trexp_unit Rops K (v0,v1,v2,w0,w1,w2) t) /\
+  twist3_exp_elem Rops K (v0,v1,v2,w0,w1,w2) t = trexp_se3_th Rops K (v0,v1,v2,w0,w1,w2) t.
+Proof.
+  intros HK Hw Ht. destruct (trexp_se3_scaled_unit K v0 v1 v2 w0 w1 w2 t HK Hw Ht) as [E1 E2].
+  unfold twist3_exp_elem, scale6. cbv beta iota. cbn [mul Rops].
+  replace (v0*t, v1*t, v2*t, w0*t, w1*t, w2*t) with (t*v0, t*v1, t*v2, t*w0, t*w1, t*w2) by (tuple_eq ltac:(ring)).
+  rewrite E1, E2. split; reflexivity.
+Qed.
+
+(* prismatic twist (w = 0, any length n of v): element t > 0 is the translation by t v -- never the identity *)
+Theorem twist3_exp_elem_prismatic K v0 v1 v2 t :
+  thr_ok K -> 0 < t -> thv Rops (k_zero K) <= t * norm3 Rops (v0,v1,v2) ->
+  twist3_exp_elem Rops K (v0,v1,v2,0,0,0) t = Ok (rt2tr3 Rops (I33 Rops) (v0*t, v1*t, v2*t)).
+Proof.
+  intros HK Ht Hn. pose proof HK as (Kz & Kzu & Kh & Ke & Kiu & Kz1 & Kiu1). pose proof eps_pos as He.
+  rewrite thv_R in Hn.
+  assert (Hkz : 0 < IZR (k_zero K) * eps Rops) by (apply Rmult_lt_0_compat; lra).
+  set (n := norm3 Rops (v0,v1,v2)) in *.
+  assert (Hn0 : 0 < n). { destruct (Rlt_dec 0 n); [assumption|exfalso]. assert (t*n <= 0) by nra. lra. }
+  assert (Hnn : n*n = v0*v0 + v1*v1 + v2*v2) by (unfold n; c03_simpl; apply sqrt_sqrt; nra).
+  assert (Hs : norm3 Rops (v0*t, v1*t, v2*t) = t*n).
+  { c03_simpl. replace (_ + _ + _) with ((t*n)*(t*n)) by (transitivity (t*t*(v0*v0 + v1*v1 + v2*v2)); [rewrite <- Hnn; ring | ring]). apply sqrt_square. nra. }
+  unfold twist3_exp_elem, scale6. cbv beta iota. cbn [mul Rops].
+  replace (0*t) with 0 by ring.
+  unfold trexp_se3, iszerovec6.
+  assert (H6 : norm6 Rops (v0*t, v1*t, v2*t, 0, 0, 0) = t*n).
+  { c03_simpl. replace (_ + _ + _ + _ + _ + _) with ((t*n)*(t*n)) by (transitivity (t*t*(v0*v0 + v1*v1 + v2*v2)); [rewrite <- Hnn; ring | ring]). apply sqrt_square. nra. }
+  rewrite H6. cbn [ltb Rops]. replace (Rltb (t*n) _) with false by (symmetry; apply Rltb_false; rewrite thv_R; lra).
+  unfold unittwist_norm, iszerovec3.
+  replace (norm3 Rops (0,0,0)) with 0 by (c03_simpl; replace (0*0+0*0+0*0) with 0 by ring; symmetry; apply sqrt_0).
+  cbn [ltb Rops]. replace (Rltb 0 _) with true by (symmetry; apply Rltb_true; rewrite thv_R; lra).
+  rewrite Hs. cbn [div zero Rops]. replace (0/(t*n)) with 0 by (field; nra).
+  f_equal. rewrite trexp_unit_prismatic by exact HK. f_equal. tuple_eq ltac:(field; nra).
+Qed.
+
+(* the whole vector-theta branch on a unit rotational twist *)
+Theorem twist3_exp_vec_unit K (tw : V6 R) (thetas : list R) :
+  thr_ok K -> (let '(_,_,_,w0,w1,w2) := tw in normsq3 Rops (w0,w1,w2) = 1) ->
+  Forall (fun t => thv Rops (k_zero K) <= t) thetas ->
+  twist3_exp_vec Rops K tw thetas = map (fun t => Ok (trexp_unit Rops K tw t)) thetas /\
+  twist3_exp_vec Rops K tw thetas = map (trexp_se3_th Rops K tw) thetas.
+Proof.
+  intros HK Hw Hall. destruct tw as [[[[[v0 v1] v2] w0] w1] w2]. unfold twist3_exp_vec.
+  split; apply map_ext_in; intros t Hin; rewrite Forall_forall in Hall;
+    destruct (twist3_exp_elem_unit K v0 v1 v2 w0 w1 w2 t HK Hw (Hall t Hin)) as [E1 E2]; assumption.
 Qed.
